@@ -65,6 +65,7 @@ func (w *World) shadowResume(c *ContactState, rec *SessionRec, live flows.Sessio
 	call := w.newCall("resume", c, sa)
 	call.ResumeType = spec.Type
 	call.Before = before
+	call.hostCarried = spec.Carry
 	w.armServices(call)
 	w.Seams.ResetLogs()
 	if w.rec != nil {
@@ -148,7 +149,7 @@ func (w *World) shadowResume(c *ContactState, rec *SessionRec, live flows.Sessio
 // diffClass names which observable differed first (part of the fingerprint).
 func diffClass(a, b *Outcome) string {
 	switch {
-	case a.Panic != b.Panic:
+	case firstLine(a.Panic) != firstLine(b.Panic):
 		return "panic"
 	case a.Err != b.Err:
 		return "error"
